@@ -90,6 +90,11 @@ Definition is_struct_kind (t : gty) : bool :=
   | _ => false
   end.
 
+(* isScalarStruct (unmarshal.go): the struct types that hold an Ion scalar *)
+Definition is_scalar_struct (t : gty) : bool :=
+  match t with TyTimestamp | TyDecimal | TyBigInt | TyTime | TySymTok => true | _ => false end.
+Definition is_symtok (t : gty) : bool := match t with TySymTok => true | _ => false end.
+
 (* ---- lexicographic order on Go strings (the < of sort.Slice in encodeMap) ---- *)
 Fixpoint text_ltb (a b : text) : bool :=
   match a, b with
